@@ -97,6 +97,12 @@ structure Eng where
   disabledCalls : Nat
   deriving Repr, Inhabited
 
+/-- tracked state of `(instrument i, cid c)` -/
+def orderState (e : Eng) (i c : Nat) : Option Active :=
+  match e.instruments[i]? with
+  | some s => stateOf s.orders c
+  | none => none
+
 /-- `execution_txs.find(exchange)?.send(..)` (send_requests.rs:83-118, execution_tx.rs:73-86). -/
 def linkResult (links : List Link) (exchange : Nat) : Option SendError :=
   match links[exchange]? with
